@@ -80,8 +80,9 @@ c.finish(
         "not modelled: the interpreter's operation/memory budgets (MaxOps 10^6, 64 MiB), the PDF stream dictionary of an embedded CMap",
     ],
     partial=[
-        "tounicode_text_rt carries the side condition blocks_depth_ok (operand stack of the PostScript interpreter); the statement without it, "
-        "tounicode_text_rt_full, is refuted (finding tounicode-extract-operand-stack-overflow); lists of at most 200 values always satisfy it",
         "the byte level (cmap_bytes_rt, tounicode_bytes_rt) assumes H-ps: the scanner/printer pair is exercised by the harness, not proved",
+        "tounicode_text_rt asks for at most 497 values per range (the first entry of a bfrange block needs 3+m <= 500 interpreter operands; "
+        "the bound is exact: list_498_refused); files built by NewToUnicodeFile have at most 256 (new_tounicode_lists_256), so "
+        "embed_extract_lookup_tounicode has no size condition",
     ],
 )
